@@ -178,3 +178,41 @@ pub fn ask_about_live(shared: &Shared, m: &Module) {
     };
     *shared.ask.lock().unwrap() = Some(ask);
 }
+
+/// A custom section whose payload is the code transform it was handed: with
+/// it, a wrong transform becomes a difference in the emitted bytes (C09).
+#[derive(Debug, Default)]
+pub struct EchoSection {
+    pub payload: Vec<u8>,
+}
+
+impl CustomSection for EchoSection {
+    fn name(&self) -> &str {
+        "verif-echo"
+    }
+    fn data(&self, _: &IdsToIndices) -> Cow<[u8]> {
+        Cow::Owned(self.payload.clone())
+    }
+    fn apply_code_transform(&mut self, t: &CodeTransform) {
+        let mut out = Vec::new();
+        out.extend_from_slice(&(t.code_section_start as u64).to_le_bytes());
+        let mut fr: Vec<(usize, usize, usize)> = t.function_ranges.iter().map(|(id, r)| (id.index(), r.start, r.end)).collect();
+        fr.sort();
+        for (i, s, e) in fr {
+            out.extend_from_slice(&(i as u32).to_le_bytes());
+            out.extend_from_slice(&(s as u32).to_le_bytes());
+            out.extend_from_slice(&(e as u32).to_le_bytes());
+        }
+        let mut im: Vec<(u32, usize)> = t
+            .instruction_map
+            .iter()
+            .map(|(l, o)| (if l.is_default() { u32::MAX } else { l.data() }, *o))
+            .collect();
+        im.sort();
+        for (l, o) in im {
+            out.extend_from_slice(&l.to_le_bytes());
+            out.extend_from_slice(&(o as u32).to_le_bytes());
+        }
+        self.payload = out;
+    }
+}
